@@ -12,6 +12,8 @@ the move table, with index lists that match what really changed.
 Criteria hand back varied truthy / falsy values (True, 1, numpy.True_ / False, 0,
 numpy.False_, None); grand-canonical simulations also carry a shipped plain composite
 that deletes a two-atom particle and inserts a one-atom one in the same trial.
+Grand-canonical simulations also replace a table entry under its existing name in mid-run; every second user criteria
+is falsy (empty) until its first decision.
 """
 from __future__ import annotations
 
